@@ -8,7 +8,7 @@ tie   : T-cor - every allocator event (construct/copy/rebind/socc/assign/destroy
 oracle: std::allocator twin, counting base allocator, pool count == live nodes, pool identity after copy/move/swap."""
 import os
 
-GEN = ['gen_uintmath.json', 'gen_poolconst.json', 'gen_mempool.json', 'gen_alloc.json', 'gen_poolops.json']
+GEN = ['gen_uintmath.json', 'gen_poolconst.json', 'gen_mempool.json', 'gen_alloc.json', 'gen_poolops.json', 'gen_newblock.json', 'gen_handles.json']
 KINDS = ['list', 'flist', 'map', 'set', 'mmap', 'umap', 'uset']
 PART = {'checkparams': 1, 'list': 0, 'flist': 0, 'map': 0, 'set': 0, 'mmap': 1, 'umap': 1, 'uset': 1, 'direct': 1, 'duo': 1, 'retarget': 1}
 TYPES = [(24, 8), (40, 8), (8, 8), (16, 8), (4, 4), (32, 16), (3, 1), (48, 16)]   # harness.cpp TypeOf<>
